@@ -28,6 +28,9 @@ fn addr(i: usize) -> u16 {
 enum Ev {
     Submit(usize),
     SubmitCmd(usize),
+    /// a user request that is abandoned the moment it is started (time synchronisation while the
+    /// application has no clock): it writes nothing and must not hold up the requests behind it
+    SubmitDoomed(usize),
     /// add a poll with period k*T to association a
     AddPoll(usize, u64),
     Demand(usize),
@@ -79,7 +82,7 @@ fn poll_groups() -> [u8; 2] {
 }
 
 fn build_alphabet(n: usize) -> Vec<Ev> {
-    let mut v = vec![Ev::Respond, Ev::AdvTo, Ev::Submit(0), Ev::AddPoll(0, 1), Ev::Never, Ev::AdvMinus1, Ev::RespondLate, Ev::Demand(0), Ev::SubmitCmd(0)];
+    let mut v = vec![Ev::Respond, Ev::AdvTo, Ev::Submit(0), Ev::AddPoll(0, 1), Ev::Never, Ev::AdvMinus1, Ev::RespondLate, Ev::Demand(0), Ev::SubmitCmd(0), Ev::SubmitDoomed(0)];
     if n >= 2 {
         v.push(Ev::Submit(1));
         v.push(Ev::AddPoll(1, 2));
@@ -143,6 +146,9 @@ impl Scenario for C19 {
         let mut uid: u32 = 0;
         let mut last_served: Option<(usize, u32)> = None; // (association, uid counter value when it was served)
         let mut writes = 0usize;
+        // requests that vanish when started (no clock): they never constrain anything themselves
+        let mut doomed: std::collections::HashSet<u32> = std::collections::HashSet::new();
+        *sim.clock.base_ms.lock().unwrap() = None;
 
         for &i in path {
             let ev = &self.alphabet[i];
@@ -156,6 +162,13 @@ impl Scenario for C19 {
                     let mut h = handles[*a].clone();
                     m[*a].users.push(uid);
                     sim.call("user", async move { h.read(ReadRequest::one_byte_range(Variation::Group40Var1, k, k)).await });
+                }
+                Ev::SubmitDoomed(a) => {
+                    uid += 1;
+                    let mut h = handles[*a].clone();
+                    m[*a].users.push(uid);
+                    doomed.insert(uid);
+                    sim.call("user", async move { h.synchronize_time(TimeSyncProcedure::Lan).await });
                 }
                 Ev::SubmitCmd(a) => {
                     uid += 1;
@@ -305,6 +318,9 @@ impl Scenario for C19 {
                 match &work {
                     Work::User(u) => {
                         // S2: submission order
+                        while m[a].users.first().map(|x| doomed.contains(x)).unwrap_or(false) {
+                            m[a].users.remove(0);
+                        }
                         if m[a].users.first() != Some(u) {
                             v = Some(Violation::new(
                                 "C19.S2",
@@ -321,7 +337,7 @@ impl Scenario for C19 {
                         if let Some((prev, uid_then)) = last_served {
                             if prev == a {
                                 let _ = uid_then;
-                                if let Some(b) = (0..self.n).find(|b| *b != a && m[*b].users.first().is_some()) {
+                                if let Some(b) = (0..self.n).find(|b| *b != a && m[*b].users.iter().any(|x| !doomed.contains(x))) {
                                     v = Some(Violation::new(
                                         "C19.S4",
                                         "association-served-twice-while-another-waits",
@@ -335,7 +351,7 @@ impl Scenario for C19 {
                     }
                     Work::Poll(p) => {
                         // S2: user requests go ahead of polls
-                        if !m[a].users.is_empty() {
+                        if m[a].users.iter().any(|x| !doomed.contains(x)) {
                             v = Some(Violation::new(
                                 "C19.S2b",
                                 "poll-ahead-of-pending-user-request",
@@ -389,7 +405,7 @@ impl Scenario for C19 {
             if out.is_none() {
                 let mut due: Vec<String> = Vec::new();
                 for (ai, a) in m.iter().enumerate() {
-                    if !a.users.is_empty() {
+                    if a.users.iter().any(|x| !doomed.contains(x)) {
                         due.push(format!("association {ai} user requests {:?}", a.users));
                     }
                     for (pi, p) in a.polls.iter().enumerate() {
@@ -402,6 +418,10 @@ impl Scenario for C19 {
                             due.push(format!("association {ai} keep-alive due t={}", a.last_activity + k));
                         }
                     }
+                }
+                // an idle channel has started (and thereby dropped) every doomed request
+                for a in m.iter_mut() {
+                    a.users.retain(|x| !doomed.contains(x));
                 }
                 if !due.is_empty() {
                     res.violation = Some(Violation::new(
